@@ -6,9 +6,8 @@ CONSTANTS
   MaxCuts = 1
   MaxTruncs = 1
   MaxRestarts = 1
-  AllowKF = TRUE
   EmitMode = "state"
 VIEW View0
-INVARIANTS TypeOK ReadYourWriteKF PositionsAgreeKF CutSeqAgreesKF RefMapBounded IterCompleteKF EmitState
+INVARIANTS TypeOK ReadYourWrite PositionsAgree CutSeqAgrees NoMismatch RefMapBounded IterComplete EmitState
 PROPERTIES TruncateOnlyOlder
 CHECK_DEADLOCK FALSE
